@@ -174,6 +174,48 @@ seed("C16-r2-1", "C16", "taylorat skips zero coefficients without advancing the 
 seed("C16-r2-2", "C16", "derivative(P, n) uses math.comb(i, n) instead of the falling factorial", "n >= 2", "C16 quick: derivative sites")
 seed("C16-r2-3", "C16", "fpa.fast_polynomial 'evaluate as it is' branch drops the top coefficient", "scheme=estrin_dac_scheme in the floating_point_algorithms copy", "C16 quick: fpa.fast_polynomial-value")
 
+seed("C01-r2-1", "C01", "complex_sqrt overflow-rescue formula uses r instead of sqrt(r) for one component", "hypot(x, y) overflows, |Re z| > |Im z|, ratio not within a few ULP of 1 (both components in the top half binade)",
+     "C01 quick: ulp-bound:sqrt (W5)", first_result="missed (HELD): huge components were paired with ratios spread over 2^+-(p+2); comparable huge pairs were a handful per run",
+     strengthened="workload W5: both components inside a band 2^-3..2^0.5 around one of 16 thresholds (largest, sqrt(largest), largest^(1/4), 1/eps, 1/eps^2, log(largest), sqrt(smallest) ...), the same threshold for both in 65 % of the draws")
+seed("C01-r2-2", "C01", "complex_exp overflow path multiplies e2*e2 first", "Re z just above log(largest) with a representable exp(x)cos(y)", "C01 quick: spurious-inf:exp")
+seed("C01-r2-3", "C01", "complex_atanh switch threshold moved to sqrt(largest)", "x^2 + y^2 > largest with both components below sqrt(largest)", "C01 quick: ulp-bound:atanh (W5)",
+     first_result="missed (HELD): see C01-r2-1", strengthened="see C01-r2-1")
+seed("C02-r2-1", "C02", "hypot direct formula guarded by mx < sqrt(largest) (sum of squares overflows)", "comparable arguments with the larger in [sqrt(largest)/sqrt 2, sqrt(largest))", "C02 quick: hypot sites")
+seed("C02-r2-2", "C02", "hypot computes mn^2/mx^2 unless the squares underflow to exactly zero", "both arguments between sqrt(smallest subnormal) and sqrt(smallest normal), comparable", "C02 quick: hypot sites")
+seed("C02-r2-3", "C02", "real_asin through atan2(x, sqrt(1-x) sqrt(1+x))", "about 40 isolated float32 inputs at exactly 5 ULP; float64 within 2 ULP",
+     "C02 thorough: real-ulp-bound:asin (exhaustive float32)", first_result="not caught by the quick tier (HELD): 18 positive float32 values among 2^32 - only enumeration sees them")
+seed("C03-r2-1", "C03", "complex_acos real part by reflection pi - atan2(.., |x|) for Re z < 0", "Re z < 0: acosh(z) == +-i acos(z) off by 1 ULP (44 % of complex128 left-half-plane inputs)", "C03 quick: rot:acosh=+-i*acos(z)")
+seed("C03-r2-2", "C03", "complex_atanh zero-for-infinite-component guard moved onto the result", "any infinite component: oddness fails in the sign of the zero real part", "C03 quick: odd:atanh (not the zero-component known finding: the input has no zero component)")
+seed("C03-r2-3", "C03", "complex_asinh takes its real part from real_asinh on the real axis", "Im z = +-0: asinh(z) == -i asin(iz) off by 1 ULP for 7-9 % of x", "C03 quick: rot:asinh=-i*asin(i*z)")
+seed("C06-r2-1", "C06", "StableHLO comparison with a constant on the left printed reversed with the direction negated instead of mirrored", "lt/le/gt/ge(constant, expr)", "C06 quick: stablehlo:operator")
+seed("C06-r2-2", "C06", "XLA make_constant replaces a complex like-operand by Real(like)", "a constant like a complex expression (generated graphs only)", "C06 quick: xla_client:arity / like-operand sites")
+seed("C06-r2-3", "C06", "StableHLO named-constant line without its {ref}", "a named constant used twice or force-referenced", "C06 quick: stablehlo:reference-before-binding")
+seed("C07-r2-1", "C07", "_two_level_intkey of operands with more than two operands keeps only the first and last", "two select / list / apply operands differing in a middle operand under the same parent",
+     "C07 quick: alias-different-structure", first_result="missed (HELD): random histories almost never build two compound nodes that differ in exactly one operand and then the same parent over both",
+     strengthened="near-duplicate constructions: an existing compound node rebuilt with one operand replaced (any position), the same parent and grand-parent built over original and variant")
+seed("C07-r2-2", "C07", "_negative_zeros only recognises Python complex", "numpy.complex64 signed zeros", "C07 quick: alias-constant-signed-zero")
+seed("C07-r2-3", "C07", "a symbol's operand-level key is (symbol, name)", "two symbols of one name and different types in one context", "C07 quick: alias-different-structure")
+seed("C08-r2-1", "C08", "NumPy make_constant drops the outer cast of finfo-based named constants", "eps/largest/smallest/smallest_subnormal like a complex expression, printed without the rewrite", "C08 quick: emitted-debug-assertion-fires")
+seed("C08-r2-2", "C08", "NumPy upcast table maps float64 to float64", "upcast of a float64 value that is referenced or returned",
+     "C08 quick: emitted-debug-assertion-fires", first_result="missed (HELD): the generator replaced every upcast of a 64-bit value (float128 was not in the harness's dtype table)",
+     strengthened="upcast(float64) -> numpy.longdouble is generated and judged; float128 / complex256 added to the dtype table")
+seed("C08-r2-3", "C08", "get_type of real/imag(complex(a, b)) takes the part's type", "real(complex(a: float32, b: float64)) printed without the rewrite",
+     "C08 quick: static-vs-runtime:real", first_result="missed (HELD): mixed-precision complex(a, b) was replaced by a + b in the generator and the harness's own make_complex model rejected mixed parts, skipping the graph",
+     strengthened="directed shapes (each typing rule directly on symbols, on complex(a, b), on casts, with constants like the other operand) over all 5^n dtype assignments, with and without the rewrite; the accepted mixed pair (float32, float64) is modelled")
+seed("C09-r2-1", "C09", "logical_or chains rebuilt from a set of keys", "or-chains of three or more operands (complex atanh) under different hash seeds", "C09 quick: text-differs-from-canonical")
+seed("C09-r2-2", "C09", "process-wide memo in toidentifier keyed by value (2 == 2.0 == float32(2))", "an earlier generation that named the same value with another type", "C09 quick: text-differs-from-canonical (histories)")
+seed("C09-r2-3", "C09", "free-suffix search in _register_reference continues from a module-level table", "generating the same function twice in one process", "C09 quick: in-process-repetition-differs")
+seed("C18-r2-1", "C18", "FZ=False / DAZ=False do not clear a bit that is set on entry", "a context switching FZ or DAZ off inside one that switched it on", "C18 quick: enter-changes-unrequested-bits*")
+seed("C18-r2-2", "C18", "__exit__ restores only the bits the context was asked to manage", "a body (or library) that writes the register itself, a non-LIFO inner context",
+     "C18 quick: exit-does-not-restore*", first_result="missed (HELD): bodies only did arithmetic and entered further contexts",
+     strengthened="bodies that XOR control bits, exception masks and sticky flags into MXCSR (every kind at depth 1 exhaustively, randomly in the trees); a mismatch is repaired before any further floating-point operation (a leaked unmasked exception would otherwise kill the shard with SIGFPE)")
+seed("C18-r2-3", "C18", "decorator form without try/finally", "a decorated function that raises", "C18 quick: exit-does-not-restore-after-exception")
+seed("C19-r2-1", "C19", "_fix_limit_value treats a falsy scalar bound as unspecified", "a scalar zero bound (0, 0.0, -0.0) given to the pair generators",
+     "C19 quick: real_pair_samples-product / complex_pair_samples-product", first_result="missed (HELD): product bounds were drawn as +-2^U(-8,8), never zero",
+     strengthened="zero bounds as dtype scalars, Python floats, ints and -0.0 on either side")
+seed("C19-r2-2", "C19", "duplicates removed only when subnormals are flushed", "include_subnormal=True, bounds given, more samples than representable values", "C19 quick: real_samples-not-strictly-increasing")
+seed("C19-r2-3", "C19", "equal-bounds shortcut before the bounds are normalised", "equal subnormal bounds, bounds coinciding only after normalisation", "C19 quick: real_samples-* bound sites")
+
 for id_, meta in T.items():
     d = os.path.join(ROOT, id_)
     if not os.path.isdir(d):
